@@ -14,6 +14,7 @@ import OciModel.Driver.AuthFile
 import OciModel.Driver.Conc
 import OciModel.Driver.BlobReader
 import OciModel.Driver.Unify
+import OciModel.Driver.UnifyID
 import OciModel.Driver.UnifyConc
 import OciModel.Driver.Auth
 import OciModel.Driver.Iter
@@ -54,6 +55,7 @@ def step (st : DState) (line : String) : DState × String :=
   | "uni" :: rest =>
     let (u, out) := OciModel.Driver.Unify.drive st.uni rest
     ({ st with uni := u }, out)
+  | "uid" :: rest => (st, OciModel.Driver.UnifyID.drive rest)
   | "dbg" :: rest => (st, OciModel.Driver.Iter.drive rest)
   | "uconc" :: rest => (st, OciModel.Driver.UnifyConc.drive rest)
   | "rd" :: rest => (st, OciModel.Driver.BlobReader.drive rest)
